@@ -189,7 +189,8 @@ def check_c04(rep):
                        "with the default power-of-two key set (NAF-composed rotations) and with a key for every element; class = distinct (action, element or step, operand typestate)")
     for sch, ps in (("bfv", BFV), ("bgv", BGV), ("ckks", CKKS)):
         run_instance(rep, "gal_" + sch, ps, actions=GALOIS, depth=5 if quick else 6, keysets=("default", "all"), extra_sample=3000 if quick else 30000)
-    for sch, ps in (("bfv", "bfv_16_97_45,45,45"), ("ckks", "ckks_16_0_40,40,40")) if quick else (("bfv", "bfv_16_97_45,45,45"), ("bgv", "bgv_16_97_45,45,45"), ("ckks", "ckks_16_0_40,40,40"), ("bfv", "bfv_32_193_45,45,45")):
+    for sch, ps in (("bfv", "bfv_16_97_45,45,45"), ("ckks", "ckks_16_0_40,40,40"), ("bgv", "bgv_32_193_45,45,45"), ("bfv", "bfv_64_257_45,45,45")) if quick else (("bfv", "bfv_16_97_45,45,45"), ("bgv", "bgv_16_97_45,45,45"), ("ckks", "ckks_16_0_40,40,40"), ("bfv", "bfv_32_193_45,45,45"),
+                                                                                                                       ("bgv", "bgv_64_257_45,45,45"), ("ckks", "ckks_32_0_40,40,40")):
         run_instance(rep, "gal16_" + sch + ps.split("_")[1], ps, actions=["Encode", "Encrypt", "Galois", "Rotate", "Conj"], depth=4 if quick else 5, ct_slots=("c1",),
                      keysets=("default", "all"), extra_sample=2000 if quick else 20000)
     # switching to another secret key: ciphertexts encrypted under a second key of the context (all four modes), moved along the
